@@ -52,6 +52,29 @@ Theorem C06_failed_leaves_nothing :
 Proof. intros P s sched H1 H2 H3. exact (failed_leaves_nothing P s sched (conj H1 (conj H2 H3))). Qed.
 Print Assumptions C06_failed_leaves_nothing.
 
+(* ... and no entry in the global mapping list either *)
+Theorem C06_failed_leaves_no_global_list_entry :
+  forall (P : params) (s : st sh lo) (sched : list nat),
+  mains (fst s) = [] -> glob (fst s) = [] ->
+  (forall t, In t (snd s) -> l_pc t = PGet \/ exists e, l_pc t = PDone (RErr e)) ->
+  (forall i j ti tj, nth_error (snd s) i = Some ti -> nth_error (snd s) j = Some tj -> l_me ti = l_me tj -> i = j) ->
+  let s' := run sh lo (tstep Current P) s sched in
+  forall t e, In t (snd s') -> l_pc t = PDone (RErr e) -> ~ In (l_me t) (glob (fst s')).
+Proof. intros P s sched H1 Hg H2 H3. exact (failed_leaves_no_global_entry P s sched (conj H1 (conj H2 H3)) Hg). Qed.
+Print Assumptions C06_failed_leaves_no_global_list_entry.
+
+(* PARTIAL: the same for the per-client index lists (tunnox:client_mappings:<client>) is NOT proved as an unbounded theorem
+   (it needs pc-specific invariants about which of the two index entries of a caller are present during its rollback);
+   it is decided on the real code by the harness predicate `failed-leaves-mapping` (client index entry) and by the
+   model-vs-implementation comparison of the final index contents on every replayed schedule.  Full statement: *)
+Definition C06_full_failed_leaves_no_client_index_entry : Prop :=
+  forall (P : params) (s : st sh lo) (sched : list nat),
+  mains (fst s) = [] -> cidx (fst s) = [] ->
+  (forall t, In t (snd s) -> l_pc t = PGet \/ exists e, l_pc t = PDone (RErr e)) ->
+  (forall i j ti tj, nth_error (snd s) i = Some ti -> nth_error (snd s) j = Some tj -> l_me ti = l_me tj -> i = j) ->
+  let s' := run sh lo (tstep Current P) s sched in
+  forall t e, In t (snd s') -> l_pc t = PDone (RErr e) -> forall c, ~ In (c, l_me t) (cidx (fst s')).
+
 (* every mapping record made from the code targets the code's client and address and listens for the client and
    address of the caller that made it *)
 Theorem C06_mapping_shape :
@@ -170,6 +193,37 @@ Theorem C06_one_winner_all_schedules :
     ((l_kind tj = KRev /\ l_pc tj = PDone RRevoked) \/ exists m, l_pc tj = PDone (ROk m)) -> i = j.
 Proof. intros P s sched H1 H2 H3. exact (one_winner P s sched (conj H1 (conj H2 H3))). Qed.
 Print Assumptions C06_one_winner_all_schedules.
+
+(* "by whoever activates it first": within the activation period at most one caller is past its claim (`crit`: an
+   activator between its successful Claim and its return / a revoker between its Claim and its return, winners included),
+   and while there is one, the claim marker is set and every activator reaching its Claim step is turned away without
+   touching the store.  The first to claim excludes everybody else until it fails and releases. *)
+Theorem C06_first_claimer_excludes_others :
+  forall (P : params) (s : st sh lo) (sched : list nat),
+  mains (fst s) = [] ->
+  (forall t, In t (snd s) -> l_pc t = PGet \/ exists e, l_pc t = PDone (RErr e)) ->
+  (forall i j ti tj, nth_error (snd s) i = Some ti -> nth_error (snd s) j = Some tj -> l_me ti = l_me tj -> i = j) ->
+  let s' := run sh lo (tstep Current P) s sched in
+  expired (fst s') = false ->
+  (forall i j ti tj, nth_error (snd s') i = Some ti -> nth_error (snd s') j = Some tj ->
+                     crit ti = true -> crit tj = true -> i = j) /\
+  ((exists th, In th (snd s') /\ crit th = true) ->
+   claim (fst s') = true /\
+   forall t l la ok, l_kind t = KAct l la ok -> l_pc t = PClaim ->
+     snd (tstep Current P t (fst s')) = fst s' /\ exists e, l_pc (fst (tstep Current P t (fst s'))) = PRelAdm (RErr e)).
+Proof. intros P s sched H1 H2 H3. exact (claim_holder_excludes_others P s sched (conj H1 (conj H2 H3))). Qed.
+Print Assumptions C06_first_claimer_excludes_others.
+
+(* expired while in flight: an activation that finds the activation period over at its commit point (connCode.Activate,
+   right after the last index append) writes no code record and enters the rollback; by C06_failed_leaves_nothing it
+   returns with nothing left.  (The code creates the mapping BEFORE this check, so a mapping record exists transiently.) *)
+Theorem C06_expired_at_commit_rolls_back :
+  forall (P : params) (t : lo) (s : sh) l la ok,
+  l_kind t = KAct l la ok -> l_pc t = PIdxT -> expired s = true ->
+  l_pc (fst (tstep Current P t s)) = PRbL /\
+  by_code (snd (tstep Current P t s)) = by_code s /\ by_id (snd (tstep Current P t s)) = by_id s.
+Proof. exact expired_at_commit_rolls_back. Qed.
+Print Assumptions C06_expired_at_commit_rolls_back.
 
 (* revoked at Claim never creates: in any reachable state within the activation period in which a revocation has
    completed, the claim marker is (still) set, and an activator that read the code BEFORE the revocation and reaches
